@@ -26,6 +26,7 @@ type Verifier struct {
 	idMu    sync.Mutex
 	repo    string
 	ourPkgs map[string]bool
+	prop    string // property being checked (selects impl directives)
 
 	allocMu   sync.Mutex
 	allocMemo map[*ssa.Function]*allocSet
@@ -264,6 +265,21 @@ func (V *Verifier) contractFor(ex *Exec, c *ssa.CallCommon) (*FuncSpec, calleeIn
 		ps, rs := sigNames(c.Method.Type().(*types.Signature))
 		info.names = append([]string{"recv"}, ps...)
 		info.resNames = rs
+		// interface resolved to its (assumed) implementation under this property
+		if im, ok := V.db.Impls[pkgName+".("+tn+")"]; ok && hasTag(im.Tags, V.prop) {
+			ckey := im.Concrete + "." + c.Method.Name()
+			if fn := V.allFns[ckey]; fn != nil && V.db.Funcs[ckey] != nil {
+				info.key = ckey
+				info.fn = fn
+				info.pkg = fn.Pkg.Pkg
+				info.names = nil
+				for _, p := range fn.Params {
+					info.names = append(info.names, p.Name())
+				}
+				_, info.resNames = sigNames(fn.Signature)
+				info.unwrap = fn.Params[0].Type()
+			}
+		}
 	case c.StaticCallee() != nil:
 		fn := c.StaticCallee()
 		info.fn = fn
